@@ -25,6 +25,15 @@ well-typed values, `numeric_ties_not_transitive` a non-strict violation inside t
                                  regression and `range_end_panic_witness` names the inputs), `order_by_panics_iff`
                                  characterises the panicking comparisons, `never_panics_partial` /
                                  `bindings_never_panic_partial` prove the clause away from the ends of chrono's range
+  stdSmallSort_perm / order_by_small_perm   PERMUTATION clause at full strength for results of at most 20 rows: `stdSmallSort`
+                                 is std's `insertion_sort_shift_left` (what `sort_unstable_by` runs for len <= 20; the driver
+                                 predicts the exact output order of real queries with it), a permutation for every
+                                 comparator; `stdSmallSort_contract` discharges the `SortContract` hypothesis for it
+  xsd_dispatch_pinned / tryFromTyped_eq_generated   the datatype dispatch of `try_from_literal` is regenerated from the source
+                                 (Gen/XsdDispatch.lean) and proved equal, for all inputs, to the transcription the theorems use
+  order_refl_all / order_swap_all / bindings_swap_all / order_laws_except_transitivity
+                                 reflexivity and antisymmetry hold on ALL well-formed terms (rows: all key lists);
+                                 transitivity is the only law of `OrderTotalPreorder` that fails
   repaired_total_preorder        the FULL statement for a repaired comparator (class rank first, exact
                                  comparison inside a class), with repaired_kind_order and
                                  repaired_respects_cmp_partial — documents the fix
@@ -776,5 +785,227 @@ example : SafeRange dtA ∧ SafeRange dtB := by
 example : ¬ SafeRange dtMinNaive := fun h => by
   have := (h _ value_dtMinNaive).1
   revert this; decide
+
+/-! ## the sort std runs on at most 20 rows (`stdSmallSort` = `insertion_sort_shift_left`) -/
+
+theorem insertTail_perm {α : Type} (lt : α → α → Bool) (x : α) (l : List α) : (insertTail lt x l).Perm (x :: l) := by
+  induction l with
+  | nil => exact List.Perm.refl _
+  | cons y ys ih =>
+    unfold insertTail
+    split
+    · exact ((List.Perm.cons y ih).trans (List.Perm.swap x y ys))
+    · exact List.Perm.refl _
+
+theorem insertionSortRev_perm {α : Type} (lt : α → α → Bool) (l acc : List α) :
+    (l.foldl (fun acc x => insertTail lt x acc) acc).Perm (l.reverse ++ acc) := by
+  induction l generalizing acc with
+  | nil => simp
+  | cons x xs ih =>
+    simp only [List.foldl_cons, List.reverse_cons, List.append_assoc, List.singleton_append]
+    exact (ih _).trans (List.Perm.append_left _ (insertTail_perm lt x acc))
+
+/-- PERMUTATION clause at full strength for at most 20 rows: whatever the comparator does (also where it is not
+transitive), std's small sort returns a permutation of its input; being a total function it never panics -/
+theorem stdSmallSort_perm {α : Type} (c : α → α → Ordering) (l : List α) : (stdSmallSort c l).Perm l := by
+  unfold stdSmallSort insertionSortRev
+  have := insertionSortRev_perm (fun a b => c a b == .lt) l []
+  simp only [List.append_nil] at this
+  exact (List.reverse_perm _).trans (this.trans (List.reverse_perm _))
+
+/-- invariant of the insertion: the reversed prefix stays sorted (`b` after `a` in the reversed list means `b` comes
+first in the real order) -/
+theorem insertTail_sorted {α : Type} (c : α → α → Ordering) (S : α → Prop) (h : TotalPreorderOn c S) (x : α) (l : List α)
+    (hx : S x) (hl : ∀ a ∈ l, S a) (hs : l.Pairwise (fun a b => c b a ≠ .gt)) :
+    (insertTail (fun a b => c a b == .lt) x l).Pairwise (fun a b => c b a ≠ .gt) := by
+  induction l with
+  | nil => simp [insertTail]
+  | cons y ys ih =>
+    have hy : S y := hl y (by simp)
+    have hys : ∀ a ∈ ys, S a := fun a ha => hl a (by simp [ha])
+    rw [List.pairwise_cons] at hs
+    unfold insertTail
+    split
+    · rename_i hlt
+      have hlt' : c x y = .lt := by simpa using hlt
+      rw [List.pairwise_cons]
+      refine ⟨fun b hb => ?_, ih hys hs.2⟩
+      rcases List.mem_cons.1 ((insertTail_perm _ x ys).mem_iff.1 hb) with hb | hb
+      · subst hb; simp [hlt']
+      · exact hs.1 b hb
+    · rename_i hnlt
+      have hge : c x y ≠ .lt := by simpa using hnlt
+      have hyx : (c y x).isLE = true := by
+        rw [h.swap x y hx hy]; cases hxy : c x y <;> simp_all
+      rw [List.pairwise_cons]
+      refine ⟨fun b hb => ?_, List.pairwise_cons.2 hs⟩
+      rcases List.mem_cons.1 hb with hb | hb
+      · subst hb; intro hgt; rw [hgt] at hyx; simp at hyx
+      · have hby : (c b y).isLE = true := by
+          have := hs.1 b hb; cases hc : c b y <;> simp_all
+        have := h.trans b y x (hys b hb) hy hx hby hyx
+        intro hgt; rw [hgt] at this; simp at this
+
+theorem insertionSortRev_sorted {α : Type} (c : α → α → Ordering) (S : α → Prop) (h : TotalPreorderOn c S)
+    (l acc : List α) (hl : ∀ a ∈ l, S a) (ha : ∀ a ∈ acc, S a) (hs : acc.Pairwise (fun a b => c b a ≠ .gt)) :
+    (l.foldl (fun acc x => insertTail (fun a b => c a b == .lt) x acc) acc).Pairwise (fun a b => c b a ≠ .gt) := by
+  induction l generalizing acc with
+  | nil => exact hs
+  | cons x xs ih =>
+    simp only [List.foldl_cons]
+    refine ih _ (fun a h' => hl a (by simp [h'])) ?_ (insertTail_sorted c S h x acc (hl x (by simp)) ha hs)
+    intro a h'
+    rcases List.mem_cons.1 ((insertTail_perm _ x acc).mem_iff.1 h') with h' | h'
+    · subst h'; exact hl _ (by simp)
+    · exact ha a h'
+
+/-- std's small sort meets the contract the sequence-level theorems assume: they hold for the algorithm that
+actually runs on results of at most 20 rows -/
+theorem stdSmallSort_contract : SortContract stdSmallSort := by
+  refine ⟨fun c l => stdSmallSort_perm c l, fun c l h => ?_⟩
+  unfold stdSmallSort insertionSortRev
+  rw [List.pairwise_reverse]
+  exact insertionSortRev_sorted c (· ∈ l) h l [] (fun a ha => ha) (by simp) List.Pairwise.nil
+
+/-- `ORDER BY` on at most 20 rows, as executed (`orderBy stdSmallSort`): a permutation for ALL rows and key lists -/
+theorem order_by_small_perm (crit : List (Str × Bool)) (rows : List Binding) :
+    (orderBy stdSmallSort crit rows).Perm rows := stdSmallSort_perm _ _
+
+/-! ## the datatype dispatch is the one in the source (generated table) -/
+
+/-- the regenerated table of `try_from_literal`'s arms is exactly the table the model transcribes (names, order and
+right-hand sides): an edit of any arm in sparql/src/value.rs fails this obligation -/
+theorem xsd_dispatch_pinned : Gen.xsdDispatch = XsdKind.all.map (fun k => (kindNameS k, armOfKind k)) := by decide
+
+/-- an `if name == c then some k else …` chain over a table -/
+def ifChain : List (Str × XsdKind) → Str → Option XsdKind
+  | [], _ => none
+  | (c, k) :: tl, n => if n == c then some k else ifChain tl n
+
+theorem ifChain_eq_find (tbl : List (Str × XsdKind)) (n : Str) :
+    ifChain tbl n = (tbl.find? (fun p => n == p.1)).map (·.2) := by
+  induction tbl with
+  | nil => rfl
+  | cons p tl ih =>
+    obtain ⟨c, k⟩ := p
+    simp only [ifChain, List.find?_cons]
+    cases h : (n == c) <;> simp [ih]
+
+/-- `xsdKind` is the lookup of the name in the table of arm names -/
+theorem xsdKind_eq_find (name : Str) :
+    xsdKind name = XsdKind.all.find? (fun k => name == (kindNameS k).toList) := by
+  have h1 : xsdKind name = ifChain (XsdKind.all.map (fun k => ((kindNameS k).toList, k))) name := rfl
+  rw [h1, ifChain_eq_find, List.find?_map]
+  show Option.map _ (Option.map _ (XsdKind.all.find? (fun k => name == (kindNameS k).toList))) = _
+  cases XsdKind.all.find? (fun k => name == (kindNameS k).toList) <;> rfl
+
+/-- each arm of `valueOfKind` is the meaning of its descriptor -/
+theorem valueOfKind_eq_armSem (lex : Str) (k : XsdKind) : valueOfKind lex k = armSem (armOfKind k) lex := by
+  cases k <;> rfl
+
+/-- REFINEMENT: the hand-transcribed dispatch the theorems are about equals, for all lexical forms and datatype IRIs,
+the interpretation of the table regenerated from the source -/
+theorem tryFromTyped_eq_generated (lex dt : Str) : tryFromTyped lex dt = tryFromTypedGen lex dt := by
+  unfold tryFromTyped tryFromTypedGen
+  cases xsdName dt with
+  | none => rfl
+  | some name =>
+    simp only [xsdKind_eq_find, xsd_dispatch_pinned, List.find?_map]
+    cases h : XsdKind.all.find? ((fun p : String × Gen.XsdArm => name == p.1.toList) ∘ fun k => (kindNameS k, armOfKind k)) with
+    | none =>
+      have : XsdKind.all.find? (fun k => name == (kindNameS k).toList) = none := h
+      simp [this]
+    | some k =>
+      have : XsdKind.all.find? (fun k => name == (kindNameS k).toList) = some k := h
+      simp [this, valueOfKind_eq_armSem]
+
+/-! ## the only law that fails is transitivity: reflexivity and antisymmetry hold for ALL well-formed terms -/
+
+theorem strCmp_swap (a b : Str) : strCmp b a = (strCmp a b).swap := OrientedOrd.eq_swap
+
+theorem fval_swap (x y : FVal) : y.partialCmp x = (x.partialCmp y).map Ordering.swap := by
+  cases x <;> cases y <;> simp [FVal.partialCmp, Int.compare_swap]
+
+theorem decCmp_swap (m1 s1 m2 s2 : Int) : decCmp m2 s2 m1 s1 = (decCmp m1 s1 m2 s2).swap := by
+  unfold decCmp
+  rw [Int.max_comm s2 s1]
+  exact OrientedOrd.eq_swap
+
+theorem number_swap (a b : SparqlNumber) : b.partialCmp a = (a.partialCmp b).map Ordering.swap := by
+  cases a <;> cases b <;> simp only [SparqlNumber.partialCmp, SparqlNumber.coerceToDecimal, Option.map_some] <;>
+    first
+    | exact fval_swap _ _
+    | (congr 1; exact decCmp_swap _ _ _ _)
+    | (congr 1; exact OrientedOrd.eq_swap)
+
+theorem value_swap (a b : SparqlValue) : b.partialCmp a = (a.partialCmp b).map Ordering.swap := by
+  cases a <;> cases b <;> try (simp [SparqlValue.partialCmp]; done)
+  · simp only [SparqlValue.partialCmp]; exact number_swap _ _
+  · rename_i s1 t1 s2 t2
+    cases t1 <;> cases t2 <;> simp only [SparqlValue.partialCmp, Option.map_some, Option.map_none]
+    · congr 1; exact strCmp_swap _ _
+    · congr 1
+      rw [Ordering.swap_then]
+      congr 1
+      · exact strCmp_swap _ _
+      · exact strCmp_swap _ _
+  · rename_i b1 b2
+    cases b1 <;> cases b2 <;> simp only [SparqlValue.partialCmp, Option.map_some, Option.map_none]
+    congr 1; exact OrientedOrd.eq_swap
+  · rename_i d1 d2
+    cases d1 <;> cases d2 <;> simp only [SparqlValue.partialCmp, Option.map_none]
+    exact dateTime_swap _ _
+
+theorem sparqlCmp_swap (a b : Term) : sparqlCmp b a = (sparqlCmp a b).map Ordering.swap := by
+  unfold sparqlCmp
+  cases tryFromTerm a <;> cases tryFromTerm b <;> simp only [] <;>
+    first
+    | exact value_swap _ _
+    | (rw [C02.termEq_symm b a, Bool.and_comm (isLiteral b)]; split <;> simp_all)
+
+/-- antisymmetry of the ORDER BY comparator on ALL well-formed terms -/
+theorem order_swap_all (a b : Term) (ha : a.WF = true) (hb : b.WF = true) : cmp b a = (cmp a b).swap := by
+  show (sparqlCmp b a).getD (termCmp b a) = ((sparqlCmp a b).getD (termCmp a b)).swap
+  rw [sparqlCmp_swap a b]
+  cases sparqlCmp a b with
+  | none => simp [C02.cmp_swap a b ha hb]
+  | some o => simp
+/-- reflexivity of the ORDER BY comparator on ALL well-formed terms (also NaN, ill-typed literals, …) -/
+theorem order_refl_all (a : Term) (ha : a.WF = true) : cmp a a = .eq := by
+  have := order_swap_all a a ha ha
+  cases h : cmp a a <;> simp_all
+
+/-- so `OrderTotalPreorder` fails by transitivity ALONE: its two other laws hold on all admissible terms -/
+theorem order_laws_except_transitivity :
+    (∀ a, Admissible a → cmp a a = .eq) ∧ (∀ a b, Admissible a → Admissible b → cmp b a = (cmp a b).swap) ∧
+    ¬ (∀ a b d, Admissible a → Admissible b → Admissible d → (cmp a b).isLE = true → (cmp b d).isLE = true →
+        (cmp a d).isLE = true) := by
+  refine ⟨fun a ha => order_refl_all a ha.1, fun a b ha hb => order_swap_all a b ha.1 hb.1, fun htr => ?_⟩
+  exact not_order_total_preorder ⟨fun a ha => order_refl_all a ha.1, fun a b ha hb => order_swap_all a b ha.1 hb.1, htr⟩
+
+/-- rows: swapping two solutions swaps the outcome, for every key list, whenever the key values are well formed
+(what makes the two-row observable of the harness, and std's `is_less`, meaningful) -/
+theorem bindings_swap_all (b1 b2 : Binding) (crit : List (Str × Bool))
+    (h1 : ∀ e t, eval e b1 = some t → t.WF = true) (h2 : ∀ e t, eval e b2 = some t → t.WF = true) :
+    cmpBindingsWith b2 b1 crit = (cmpBindingsWith b1 b2 crit).swap := by
+  induction crit with
+  | nil => rfl
+  | cons p rest ih =>
+    obtain ⟨e, d⟩ := p
+    have hk : keyCmp (eval e b2) (eval e b1) = (keyCmp (eval e b1) (eval e b2)).swap := by
+      cases hx : eval e b1 <;> cases hy : eval e b2 <;> try rfl
+      exact order_swap_all _ _ (h1 e _ hx) (h2 e _ hy)
+    simp only [cmpBindingsWith, hk, ih, Ordering.swap_then]
+    cases d <;> simp
+
+/-- the sequence-level theorems instantiated with the sort that actually runs on at most 20 rows -/
+theorem order_by_small_sorted (crit : List (Str × Bool)) (rows : List Binding)
+    (h : ∀ e d, (e, d) ∈ crit → OneClass (column (· ∈ rows) e)) :
+    (orderBy stdSmallSort crit rows).Pairwise (fun x y => rowCmp crit x y ≠ .gt) :=
+  (sorted_perm stdSmallSort stdSmallSort_contract crit rows).2 h
+
+-- non-vacuity of the small sort: the cycle of `order_not_transitive` is still permuted, not lost
+example : stdSmallSort cmp [xlit "1a" "integer", xlit "10" "integer", xlit "9" "integer"] =
+    [xlit "10" "integer", xlit "1a" "integer", xlit "9" "integer"] := by decide
 
 end SophiaProofs.C14
